@@ -27,6 +27,12 @@ type panicSite struct {
 // (`0 <= i` also as `i >= 0`), so that the rules need to look at one operand order only.
 func factsAt(in ssa.Instruction) []edgeCond {
 	base := controlling(in.Block())
+	// `!x` taken (not taken) is the fact x not taken (taken): `switch { case !ok: … }`, `if !found`
+	for _, ec := range base {
+		if u, ok := ec.Cond.(*ssa.UnOp); ok && u.Op == token.NOT {
+			base = append(base, edgeCond{If: ec.If, Cond: u.X, Pol: !ec.Pol})
+		}
+	}
 	out := append([]edgeCond{}, base...)
 	for _, ec := range base {
 		bo, ok := ec.Cond.(*ssa.BinOp)
@@ -64,8 +70,8 @@ func lenOf(v ssa.Value) (string, bool) {
 			if ret, isR := h.Blocks[0].Instrs[len(h.Blocks[0].Instrs)-1].(*ssa.Return); isR && len(ret.Results) == 1 {
 				if inner, isC := ret.Results[0].(*ssa.Call); isC && builtinName(inner) == "len" {
 					p := path(inner.Call.Args[0])
-					if strings.HasPrefix(p, h.Params[0].Name()+".") {
-						return path(call.Call.Args[0]) + strings.TrimPrefix(p, h.Params[0].Name()), true
+					if strings.HasPrefix(p, pname(h.Params[0])+".") {
+						return path(call.Call.Args[0]) + strings.TrimPrefix(p, pname(h.Params[0])), true
 					}
 				}
 			}
@@ -434,7 +440,7 @@ func kindFactAt(t *Tree, at ssa.Instruction, n ssa.Value, want int64, name strin
 			k = i
 		}
 	}
-	suffix := strings.TrimPrefix(np, prm.Name())
+	suffix := strings.TrimPrefix(np, pname(prm))
 	if k < 0 || (suffix != "" && !strings.HasPrefix(suffix, ".")) {
 		return ""
 	}
